@@ -178,6 +178,13 @@ func H_l2_residue() {
 		ref.Reset()
 	}
 	q := vString("q", vParam("lq"))
+	// round trip with several serialized tries alive at once: what was loaded from the stream of
+	// A (B, the empty trie) answers as A (B, the empty trie) itself, not as whatever was
+	// marshalled after it
+	if last >= 0 && last < 3 {
+		orig := []*SlimTrie{a.st, b.st, e}[last]
+		a.sameAnswers(inst, orig, q, "C05.roundtrip-live")
+	}
 	a.sameAnswers(inst, ref, q, "C05.residue")
 	vAssert(vDeepEqual(inst.inner, ref.inner), "C05.residue.message")
 	vAssert(vDeepEqual(inst.Stat(), ref.Stat()), "C05.residue.stat")
